@@ -554,9 +554,30 @@ class ParseFloatDecoder(json.JSONDecoder):
         super().__init__(**kw)
 
 
+class TypeErrorDecoder(json.JSONDecoder):
+    """a hook that raises TypeError on objects"""
+
+    def __init__(self, **kw):
+        def hook(d):
+            raise TypeError("unhashable claims")
+        kw["object_hook"] = hook
+        super().__init__(**kw)
+
+
+class KeyErrorDecoder(json.JSONDecoder):
+    """a hook that raises an exception jwt.decode does not catch"""
+
+    def __init__(self, **kw):
+        def hook(d):
+            raise KeyError("sub")
+        kw["object_hook"] = hook
+        super().__init__(**kw)
+
+
 ENCODERS = [(None, None), (1, json.JSONEncoder), (2, TrivialEncoder), (3, RichEncoder)]
 STD_DECODERS = [(None, None), (1, json.JSONDecoder), (2, TrivialDecoder)]
-HOOK_DECODERS = [(3, HookAddDecoder), (4, HookListDecoder), (5, HookNoneDecoder), (6, PairsStrDecoder), (7, ParseFloatDecoder)]
+HOOK_DECODERS = [(3, HookAddDecoder), (4, HookListDecoder), (5, HookNoneDecoder), (6, PairsStrDecoder), (7, ParseFloatDecoder), (8, TypeErrorDecoder),
+                 (9, KeyErrorDecoder)]
 DECODERS = STD_DECODERS + HOOK_DECODERS
 
 
@@ -602,6 +623,8 @@ def own_loads(payload, dec_cls):
         return "(Err EValue)", ("err", e)
     except TypeError as e:
         return "(Err EType)", ("err", e)
+    except Exception as e:      # a hook may raise anything; jwt.decode lets it through
+        return "(Err %s)" % c_exn(ecls(e)), ("other", e)
     return "(Ok %s)" % c_pv(v), ("ok", v)
 
 
@@ -831,7 +854,14 @@ def run(ctx):
                                   tname, what, dec_id, "returned claims %r" % (d[1].claims,) if d[0] == "ok" else "raised InvalidPayloadError",
                                   drec["out"][1]), rp)
             return d, drec, own
-        if own[0] == "ok" and isinstance(own[1], dict):
+        if own[0] == "other":
+            # the decoder class raised something that is neither TypeError, ValueError nor RecursionError:
+            # the property is silent, the model says it propagates (checked by the correspondence)
+            if d[0] == "ok":
+                ctx.violation({"kind": "non-object-payload-accepted", "payload_is_json": False, "transport_kind": kind, "decoder_cls": "given"},
+                              "jwt.decode (%s, %s, decoder_cls #%s) returned claims %r although the decoder raised %r" % (
+                                  tname, what, dec_id, d[1].claims, own[1]), rp)
+        elif own[0] == "ok" and isinstance(own[1], dict):
             if d[0] != "ok" or not isinstance(d[1].claims, dict) or not same_value(d[1].claims, own[1]):
                 ctx.violation({"kind": "object-payload-not-returned", "transport_kind": kind},
                               "jwt.decode (%s, %s, decoder_cls #%s): the payload decodes to the object %r but the result is %r" % (
@@ -840,7 +870,7 @@ def run(ctx):
             if own[0] == "ok" and dec_id not in (None, 1, 2):
                 dist["decoder_made_non_object"] += 1
             if not (d[0] == "err" and isinstance(d[1], InvalidPayloadError)):
-                desc = ("decodes to the non-object %r" % (own[1],)) if own[0] == "ok" else ("is not JSON (%r)" % (own[1],))
+                desc = ("decodes to the non-object %r" % (own[1],)) if own[0] == "ok" else ("cannot be decoded (%r)" % (own[1],))
                 ctx.violation({"kind": "non-object-payload-accepted" if d[0] == "ok" else "invalid-payload-error-class",
                                "payload_is_json": own[0] == "ok", "transport_kind": kind, "decoder_cls": "default" if dec_id is None else "given"},
                               "jwt.decode (%s, %s, decoder_cls #%s, %s): the authenticated payload %r %s, but jwt.decode %s instead of raising InvalidPayloadError" % (
@@ -905,11 +935,21 @@ def run(ctx):
                                   "claims %r payload %r (encoder_cls #%s)" % (c0, pb[:200], enc_id), rp)
             if after is not None:
                 dumps_term = "(Some (%s, %s, Ok %s))" % (c_oN(enc_id), c_claims(after), c_blob(pb))
+                # the encoder class given by the caller must be the one that serializes the claims
+                own = call(lambda: json.dumps(after, ensure_ascii=False, separators=(",", ":"), cls=enc_cls).encode("utf-8"))
+                if own[0] == "err" or not same_value(call(json.loads, pb)[1:], call(json.loads, own[1])[1:]):
+                    ctx.violation({"kind": "encoder-cls-not-used", "transport_kind": kind},
+                                  "jwt.encode with encoder_cls #%s handed %r to the transport; json.dumps(claims, cls=encoder_cls) gives %r" % (
+                                      enc_id, pb[:200], own[1] if own[0] == "err" else own[1][:200]), rp)
         elif r[0] == "err" and after is not None:
             # the transport was not reached: json.dumps / to_bytes raised
             own = call(lambda: json.dumps(after, ensure_ascii=False, separators=(",", ":"), cls=enc_cls).encode("utf-8"))
             if own[0] == "err":
                 dumps_term = "(Some (%s, %s, Err %s))" % (c_oN(enc_id), c_claims(after), c_exn(ecls(own[1])))
+            elif header_valid:
+                ctx.violation({"kind": "encoder-cls-not-used", "transport_kind": kind},
+                              "jwt.encode with encoder_cls #%s raised %r before reaching the transport although json.dumps(claims, "
+                              "cls=encoder_cls) serializes the claims %r" % (enc_id, r[1], c0), rp)
         tok = r[1] if r[0] == "ok" else None
         add("CEnc %s %s %s %s %s %s %s %s %s" % (
             c_hdr(h0), c0_term, opts.targs(), c_oN(enc_id), dumps_term, tr_term,
